@@ -11,7 +11,7 @@ TRUSTED_BASE = [
     'Router/Wiring.v is hand-written from message/router.go (AddHandler, AddNoPublisherHandler, AddMiddleware, Handler.AddMiddleware, AddPublisherDecorators, AddSubscriberDecorators, '
     'RunHandlers, handler.run, decorateHandlerPublisher, decorateHandlerSubscriber, addHandlerContext, handleMessage, publishProducedMessages) and router_context.go and tied to them by this check',
     'the subscriber environment is a scripted fan-out subscriber (every subscription of a topic on a subscriber object receives its own copy); middlewares and decorators are the harness\'s tagging wrappers '
-    '(enter/exit marks, optional appended message; a publisher decorator calls its inner publisher even when that is a nil interface, as an embedding decorator does)',
+    '(enter/exit marks, optional appended message; the tagging publisher decorator forwards Publish and Close to its inner publisher without a nil guard, as an embedding decorator does - since fix 419d219 a nil publisher is replaced by the no-publisher stand-in, so nothing is called on nil)',
     'hooks router.wiring.handler_removed (after delete(r.handlers, name)), router.wiring.before_snapshot / snapshot_taken (around the goroutine\'s copy of r.middlewares) + hookrt park rules: used only to hold a goroutine at that point while the program goes on; '
     'a rule that times out just means the window was not forced (counted in the evidence), never a verdict',
     'internal.StructName is exercised (Stringer and %T paths, empty names) but not modelled: type names enter the model as the strings the harness computed for its own collaborator types; '
@@ -24,7 +24,7 @@ ASSUMPTIONS = [
     'That the registration calls and the copy are atomic with respect to each other rests on middlewaresLock (Handler.AddMiddleware always took it; Router.AddMiddleware takes it since fix b87685c: before, -race reported the data race '
     'and a variadic batch could be copied in part); mutexes are not modelled below that',
     'RunHandlers walks r.handlers in Go map order; the model takes registration order. Since a failed attempt leaves nothing behind (fix 29438e7, C09_retry_leaves_no_residue) the order is not observable. '
-    'A failing constructor at the very first Run is not generated (Run cannot be retried: "router is already running"); Handler.Stop of a handler whose copy is still pending and deliveries to it are not generated / not modelled',
+    'A failing Subscribe (RunHandlers aborts after decorating; repaired by fix 7669437: both undecorated objects are put back; reproduced and checked by a scratch Go test, red before / green after) is NOT a program step of the model and is not generated. A failing constructor at the very first Run is not generated (Run cannot be retried: "router is already running"); Handler.Stop of a handler whose copy is still pending and deliveries to it are not generated / not modelled',
     'as coded (stated by theorem, not repaired): r.middlewares entries are never removed, so a handler added again under the name of a stopped one inherits that name\'s handler-level middlewares (C09_registrations_never_removed)',
     'per-copy independence: the copies of concurrently delivered messages are handled by independent handleMessage instances; the harness runs 1..4 deliveries x fan-out copies in flight behind a barrier and compares every per-copy trace',
 ]
